@@ -643,6 +643,75 @@ theorem solve_resume (E : Env ω ρ ξ α) (cb : Option (Callback ω)) (d : Drv 
       rw [specCb_shift, S1i, S1c]
       simp
 
+
+/-- resumption when the NaN stop trips during the second call: same exception, in the same
+    (globally numbered) iteration, with the same state, counter and records as the single long run -/
+theorem solve_resume_trip (E : Env ω ρ ξ α) (cb : Option (Callback ω)) (d : Drv ω ρ L) (m1 m2 g : Nat)
+    (hda : d.timer.dflt ≠ d.timer.all) (hwf : TimerWF d.timer d.clock) (j : Nat)
+    (hj1 : m1 ≤ j) (hj2 : j < m1 + m2)
+    (hclean : ∀ k < j, tripsB E d.nanstop (afterStep E cb d.world k) = false)
+    (htrip : tripsB E d.nanstop (afterStep E cb d.world j) = true) :
+    let r1 := solve E cb (d.setMaxiter m1)
+    let r2 := solve E cb ((r1.1.tick g).setMaxiter m2)
+    let r := solve E cb (d.setMaxiter ((m1 + m2 : Nat) : Int))
+    r1.2 = .ok ∧ r2.2 = .nan ∧ r.2 = .nan ∧ r2.1.world = r.1.world ∧ r2.1.itnum = r.1.itnum ∧
+      r2.1.rows = r.1.rows ∧ r2.1.clock = r.1.clock + g := by
+  intro r1 r2 r
+  have hr1 : solve E cb (d.setMaxiter m1) = r1 := rfl
+  have hr2 : solve E cb ((r1.1.tick g).setMaxiter m2) = r2 := rfl
+  have hr : solve E cb (d.setMaxiter ((m1 + m2 : Nat) : Int)) = r := rfl
+  clear_value r r2 r1
+  obtain ⟨j', rfl⟩ : ∃ j', j = m1 + j' := ⟨j - m1, by omega⟩
+  have t1 : (d.setMaxiter (m1 : Int)).maxiter.toNat = m1 := by simp
+  have t12 : (d.setMaxiter ((m1 + m2 : Nat) : Int)).maxiter.toNat = m1 + m2 := by
+    simp only [setMaxiter_maxiter, Int.toNat_natCast]
+  obtain ⟨ok1, S1⟩ := solve_clean E cb (d.setMaxiter m1) hda hwf
+    (by rw [t1]; intro k hk; exact hclean k (by omega))
+  obtain ⟨o, S⟩ := solve_trip E cb (d.setMaxiter ((m1 + m2 : Nat) : Int)) hda hwf (m1 + j')
+    (by rw [t12]; exact hj2) hclean htrip
+  rw [hr1] at ok1 S1
+  rw [hr] at o S
+  have S1w := S1.world; have S1c := S1.clock; have S1i := S1.itnum; have S1r := S1.rows
+  have S1n := S1.nanstop; have S1t := S1.timer
+  rw [t1] at S1w S1c S1i S1r S1t
+  simp only [setMaxiter_world, setMaxiter_clock, setMaxiter_itnum, setMaxiter_nanstop, setMaxiter_timer, setMaxiter_rows, setMaxiter_cblog, setMaxiter_tlog, setMaxiter_maxiter, tick_world, tick_itnum, tick_nanstop, tick_timer, tick_rows, tick_cblog, tick_tlog, tick_maxiter, tick_clock] at S1w S1c S1i S1r S1n S1t
+  have hda' : ((r1.1.tick g).setMaxiter m2).timer.dflt ≠ ((r1.1.tick g).setMaxiter m2).timer.all := by
+    show r1.1.timer.dflt ≠ r1.1.timer.all
+    rw [S1t.1, S1t.2.1]; exact hda
+  have hwf' : TimerWF ((r1.1.tick g).setMaxiter m2).timer ((r1.1.tick g).setMaxiter m2).clock :=
+    S1t.wf _
+  have t2 : ((r1.1.tick g).setMaxiter (m2 : Int)).maxiter.toNat = m2 := by simp
+  have hw' : ((r1.1.tick g).setMaxiter (m2 : Int)).world = worldAt E cb d.world m1 := S1w
+  have hn' : ((r1.1.tick g).setMaxiter (m2 : Int)).nanstop = d.nanstop := S1n
+  obtain ⟨o2, S2⟩ := solve_trip E cb ((r1.1.tick g).setMaxiter m2) hda' hwf' j'
+    (by rw [t2]; omega)
+    (by rw [hw', hn']; intro k hk; rw [← afterStep_add]; exact hclean (m1 + k) (by omega))
+    (by rw [hw', hn', ← afterStep_add]; exact htrip)
+  rw [hr2] at o2 S2
+  have S2w := S2.world; have S2c := S2.clock; have S2i := S2.itnum; have S2r := S2.rows
+  rw [hw'] at S2w S2c S2r
+  have he' : ((r1.1.tick g).setMaxiter (m2 : Int)).timer.elapsedDefault true
+      ((r1.1.tick g).setMaxiter (m2 : Int)).clock =
+      d.timer.elapsedDefault true d.clock + stepTime E cb d.world m1 := S1t.read _
+  rw [he'] at S2r
+  simp only [setMaxiter_world, setMaxiter_clock, setMaxiter_itnum, setMaxiter_nanstop, setMaxiter_timer, setMaxiter_rows, setMaxiter_cblog, setMaxiter_tlog, setMaxiter_maxiter, tick_world, tick_itnum, tick_nanstop, tick_timer, tick_rows, tick_cblog, tick_tlog, tick_maxiter, tick_clock] at S2c S2i S2r
+  have Sw := S.world; have Sc := S.clock; have Si := S.itnum; have Sr := S.rows
+  simp only [setMaxiter_world, setMaxiter_clock, setMaxiter_itnum, setMaxiter_nanstop, setMaxiter_timer, setMaxiter_rows, setMaxiter_cblog, setMaxiter_tlog, setMaxiter_maxiter, tick_world, tick_itnum, tick_nanstop, tick_timer, tick_rows, tick_cblog, tick_tlog, tick_maxiter, tick_clock] at Sw Sc Si Sr
+  refine ⟨ok1, o2, o, ?_, ?_, ?_, ?_⟩
+  · rw [S2w, Sw, afterStep_add]
+  · rw [S2i, Si, S1i]; push_cast; omega
+  · rw [S2r, Sr, S1r, List.range_add, List.map_append, List.map_map, List.append_assoc]
+    congr 2
+    apply List.map_congr_left
+    intro k _
+    simp only [Function.comp]
+    rw [specRow_shift, S1i]
+  · have h1 : stepTime E cb d.world (m1 + j' + 1) =
+        stepTime E cb d.world m1 + stepTime E cb (worldAt E cb d.world m1) (j' + 1) := by
+      rw [show m1 + j' + 1 = m1 + (j' + 1) by omega]; exact stepTime_add E cb d.world m1 (j' + 1)
+    have h2 := cbTime_add E cb d.world m1 j'
+    rw [S2c, Sc, S1c, h1, h2]; omega
+
 /-! ### packaging for the property theorems -/
 
 /-- what is assumed of the optimiser object when `solve` is called: its timer is the
@@ -656,6 +725,7 @@ structure Ready (d : Drv ω ρ L) : Prop where
 def NoTrip (E : Env ω ρ ξ α) (cb : Option (Callback ω)) (d : Drv ω ρ L) : Prop :=
   ∀ k < d.maxiter.toNat, ¬ tripsAt E cb d.world d.nanstop k
 
+omit [DecidableEq L] in
 theorem noTrip_tripsB {E : Env ω ρ ξ α} {cb : Option (Callback ω)} {d : Drv ω ρ L}
     (h : NoTrip E cb d) : ∀ k < d.maxiter.toNat, tripsB E d.nanstop (afterStep E cb d.world k) = false := by
   intro k hk
@@ -683,5 +753,66 @@ theorem ready_init (w : ω) (o : Options) (dflt all : L) (c : Nat) (h : dflt ≠
   refine ⟨h, ?_⟩
   intro e he
   simp [Drv.init, Timer.init, Store.get] at he
+
+/-! ### sequences of `solve` calls -/
+
+/-- `solver.maxiter = m; solver.solve(cb)` for each `(m, cb)` in turn -/
+def runSolves (E : Env ω ρ ξ α) : List (Int × Option (Callback ω)) → Drv ω ρ L → Drv ω ρ L
+  | [], d => d
+  | c :: cs, d => runSolves E cs (solve E c.2 (d.setMaxiter c.1)).1
+
+/-- none of the calls raises -/
+def AllOk (E : Env ω ρ ξ α) : List (Int × Option (Callback ω)) → Drv ω ρ L → Prop
+  | [], _ => True
+  | c :: cs, d => (solve E c.2 (d.setMaxiter c.1)).2 = .ok ∧ AllOk E cs (solve E c.2 (d.setMaxiter c.1)).1
+
+/-- total number of iterations requested -/
+def totalIters (calls : List (Int × Option (Callback ω))) : Nat := (calls.map (fun c => c.1.toNat)).sum
+
+theorem ready_after_solve (E : Env ω ρ ξ α) (cb : Option (Callback ω)) (d : Drv ω ρ L) (hr : Ready d)
+    (S : SolveDone E cb d (solve E cb d).1) : Ready (solve E cb d).1 := by
+  refine ⟨?_, S.timer.wf _⟩
+  rw [S.timer.1, S.timer.2.1]
+  exact hr.labels
+
+theorem noTrip_of_ok (E : Env ω ρ ξ α) (cb : Option (Callback ω)) (d : Drv ω ρ L) (hr : Ready d)
+    (hok : (solve E cb d).2 = .ok) :
+    ∀ k < d.maxiter.toNat, tripsB E d.nanstop (afterStep E cb d.world k) = false := by
+  rcases first_trip (fun k => tripsB E d.nanstop (afterStep E cb d.world k)) d.maxiter.toNat with
+    h | ⟨j, hj, hc, ht⟩
+  · exact h
+  · obtain ⟨o, _⟩ := solve_trip E cb d hr.labels hr.past j hj hc ht
+    rw [o] at hok
+    cases hok
+
+theorem runSolves_numbering (E : Env ω ρ ξ α) (calls : List (Int × Option (Callback ω)))
+    (d : Drv ω ρ L) (hr : Ready d) (hok : AllOk E calls d) :
+    (runSolves E calls d).itnum = d.itnum + (totalIters calls : Int) ∧
+      (runSolves E calls d).rows.map (·.iter) =
+        d.rows.map (·.iter) ++ (List.range (totalIters calls)).map (fun (k : Nat) => d.itnum + (k : Int)) ∧
+      Ready (runSolves E calls d) := by
+  induction calls generalizing d with
+  | nil => simp [runSolves, totalIters, hr]
+  | cons c cs ih =>
+    obtain ⟨ok, rest⟩ := hok
+    have hr1 : Ready (d.setMaxiter c.1) := ⟨hr.labels, hr.past⟩
+    obtain ⟨_, S⟩ := solve_clean E c.2 (d.setMaxiter c.1) hr1.labels hr1.past
+      (noTrip_of_ok E c.2 _ hr1 ok)
+    have hr2 := ready_after_solve E c.2 _ hr1 S
+    obtain ⟨hi, hrows, hrd⟩ := ih _ hr2 rest
+    have Si := S.itnum
+    have Sr := S.rows
+    simp only [setMaxiter_maxiter, setMaxiter_itnum, setMaxiter_rows] at Si Sr
+    have htot : totalIters (c :: cs) = c.1.toNat + totalIters cs := by simp [totalIters]
+    refine ⟨?_, ?_, hrd⟩
+    · simp only [runSolves]; rw [hi, Si, htot]; push_cast; omega
+    · simp only [runSolves]
+      rw [hrows, Sr, htot, List.range_add, List.map_append, List.map_append, List.map_map, List.map_map,
+        List.append_assoc]
+      congr 2
+      apply List.map_congr_left
+      intro k _
+      simp only [Function.comp, Si]
+      push_cast; omega
 
 end Scico.Driver
